@@ -582,7 +582,10 @@ fn check(args: &[String]) -> Result<i32, String> {
     cov.put("sim_steps", J::Int(sim_steps as i64));
     cov.put(
         "simulated_time",
-        J::s("the code under test reads no clock and sets no timer; logical time = reader fill_buf calls + API calls, reported as sim_steps"),
+        J::s(format!(
+            "the code under test reads no clock and sets no timer; logical time = reader fill_buf calls + API calls, reported as sim_steps. Clock jumps are injected all the same: {} replicas had a slow byte source during which 11 s .. 31 days of simulated time passed or the wall clock was stepped back by 2 s .. 1 day",
+            ctr.get("fault.replica_with_slow_source_simulated_time_jump").copied().unwrap_or(0)
+        )),
     );
     cov.put("distinct_schema_shapes", J::Int(shapes.len() as i64));
     cov.put("distinct_env_signatures", J::Int(envs.len() as i64));
